@@ -70,6 +70,9 @@ pub fn generate(prop: &str, rng: &mut Rng, n: usize) -> Vec<Case> {
     match prop {
         "C01" => gen_c01(rng, n, &mut out),
         "C07" => gen_c07(rng, n, &mut out),
+        "C09" => gen_c09(rng, n, &mut out),
+        "C10" => gen_c10(rng, n, &mut out),
+        "C14" => gen_c14(rng, n, &mut out),
         "C08" => gen_c08(rng, n, &mut out),
         _ => {}
     }
@@ -85,6 +88,11 @@ pub fn run_case(c: &Case) -> Option<String> {
     if k == "c08_piecewise" { return run_c08_pw(&p); }
     if let Some(rest) = k.strip_prefix("c07_indef") { return run_c07(rest.parse().ok()?, &p, false); }
     if let Some(rest) = k.strip_prefix("c07_integral") { return run_c07(rest.parse().ok()?, &p, true); }
+    if let Some(rest) = k.strip_prefix("c09_log") { return run_c09(rest.parse().ok()?, &p); }
+    if k == "c10_quartic" { return run_c10(&p); }
+    if let Some(rest) = k.strip_prefix("c14_poly") { return run_c14_poly(rest.parse().ok()?, &p); }
+    if k == "c14_quartic" { return run_c14_quartic(&p); }
+    if k == "c14_polyn" { return run_c14_polyn(&p); }
     Some(format!("unknown case kind {}", k))
 }
 
@@ -367,6 +375,306 @@ fn gen_c07(rng: &mut Rng, n: usize, out: &mut Vec<Case>) {
             c.push(if rng.below(4) == 0 { 0.0 } else { rng.float() });
             c.push(match rng.below(4) { 0 => 0.0, 1 => rng.float() * 1e-17, _ => rng.float() });
             out.push(case(&format!("c07_integral{}", deg), &c));
+        }
+    }
+}
+
+// ------------------------------------------------------------------------------------- C09 / C10
+/// reference antiderivative coefficients q of p(ln t): q_K = p_K, q_i = p_i - (i+1) q_{i+1}   (in DD)
+fn ref_q(p: &[f64]) -> Vec<DD> {
+    let n = p.len();
+    let mut q = vec![DD::from(0.0); n];
+    q[n - 1] = DD::from(p[n - 1]);
+    for i in (0..n - 1).rev() {
+        q[i] = DD::from(p[i]).sub(q[i + 1].mul(DD::from(i as f64 + 1.0)));
+    }
+    q
+}
+/// G(t) = t * q(ln t) and a magnitude for the tolerance
+fn ref_g(q: &[DD], t: f64) -> (DD, f64) {
+    let l = DD::from(t).ln();
+    let mut acc = DD::from(0.0);
+    let mut mag = 0.0f64;
+    for qi in q.iter().rev() {
+        acc = acc.mul(l).add(*qi);
+        mag = mag * l.to_f64().abs() + qi.to_f64().abs();
+    }
+    (acc.mul(DD::from(t)), mag * t)
+}
+fn log_integral(deg: usize, c: &[f64], knot: Knot) -> Box<dyn Fn(f64) -> f64> {
+    macro_rules! arr { ($n:expr) => {{ let mut a = [0.0f64; $n]; a.copy_from_slice(&c[..$n]); a }}; }
+    macro_rules! go { ($p:expr) => {{ let f = Log($p).integral(knot); Box::new(move |v| f.evaluate(v)) }}; }
+    match deg {
+        0 => go!(Poly0(c[0])), 1 => go!(Poly1(arr!(2))), 2 => go!(Poly2(arr!(3))), 3 => go!(Poly3(arr!(4))),
+        4 => go!(Poly4(arr!(5))), 5 => go!(Poly5(arr!(6))), 6 => go!(Poly6(arr!(7))), 7 => go!(Poly7(arr!(8))),
+        8 => go!(Poly8(arr!(9))), _ => unreachable!(),
+    }
+}
+fn log_indefinite(deg: usize, c: &[f64]) -> Box<dyn Fn(f64) -> f64> {
+    macro_rules! arr { ($n:expr) => {{ let mut a = [0.0f64; $n]; a.copy_from_slice(&c[..$n]); a }}; }
+    macro_rules! go { ($p:expr) => {{ let f = Log($p).indefinite(); Box::new(move |v| f.evaluate(v)) }}; }
+    match deg {
+        0 => go!(Poly0(c[0])), 1 => go!(Poly1(arr!(2))), 2 => go!(Poly2(arr!(3))), 3 => go!(Poly3(arr!(4))),
+        4 => go!(Poly4(arr!(5))), 5 => go!(Poly5(arr!(6))), 6 => go!(Poly6(arr!(7))), 7 => go!(Poly7(arr!(8))),
+        8 => go!(Poly8(arr!(9))), _ => unreachable!(),
+    }
+}
+fn run_c09(deg: usize, p: &[f64]) -> Option<String> {
+    // params: c[0..=deg], knot.x, knot.y, a, b
+    let c = &p[..deg + 1];
+    let (kx, ky, a, b) = (p[deg + 1], p[deg + 2], p[deg + 3], p[deg + 4]);
+    let f = log_integral(deg, c, Knot { x: kx, y: ky });
+    let g = log_indefinite(deg, c);
+    let q = ref_q(c);
+    let (ga, ma) = ref_g(&q, a);
+    let (gb, mb) = ref_g(&q, b);
+    let (gk, mk) = ref_g(&q, kx);
+    // the quartic representation carries the extra term u*v*x^5*R(x) (about |u|): its magnitude enters the rounding bound (C10)
+    let extra = if deg == 4 {
+        let mut a4 = [0.0f64; 5]; a4.copy_from_slice(&c[..5]);
+        let q = Log(Poly4(a4)).indefinite();
+        let m = |v: f64| { let x = -v.ln(); let mut s = 0.0; for j in 0..4 { s += q.coeffs[j].abs() * x.abs().powi(j as i32 + 1) * v; } s + q.u.abs() * 2.0 };
+        m(a) + m(b) + m(kx)
+    } else { 0.0 };
+    let tol = |m: f64| 512.0 * U * (m + extra) + 1e-300;
+    // F(knot.x) = knot.y
+    let fk = f(kx);
+    if !((fk - ky).abs() <= tol(mk + ky.abs())) { return Some(format!("F(knot.x) = {:e}, knot.y = {:e}", fk, ky)); }
+    // F(b) - F(a) = integral of p(ln t) over [a,b]
+    let want = gb.sub(ga);
+    let got = DD::from(f(b)).sub(DD::from(f(a)));
+    let err = got.sub(want).abs().to_f64();
+    if !(err <= tol(ma + mb + 2.0 * (mk + ky.abs()))) {
+        return Some(format!("F(b)-F(a) = {:e}, integral of p(ln t) over [{:e},{:e}] = {:e} (|diff| {:e})", got.to_f64(), a, b, want.to_f64(), err));
+    }
+    let got2 = DD::from(g(b)).sub(DD::from(g(a)));
+    let err2 = got2.sub(want).abs().to_f64();
+    if !(err2 <= tol(ma + mb)) {
+        return Some(format!("indefinite(): G(b)-G(a) = {:e}, integral = {:e} (|diff| {:e})", got2.to_f64(), want.to_f64(), err2));
+    }
+    None
+}
+fn gen_c09(rng: &mut Rng, n: usize, out: &mut Vec<Case>) {
+    let pts = [(1.0, 0.0, 1.0, 3.0), (2.5, -1.0, 0.5, 2.0), (4.0, -3.0, 1.0, 4.0), (0.5, 2.0, 0.25, 0.75), (1.0, 2.0, 1e-17, 2e-17), (3.0, 1.0, 1e-3, 1e3)];
+    for deg in 0..=8usize {
+        for pos in 0..=deg {
+            for &(kx, ky, a, b) in pts.iter() {
+                let mut c = vec![0.0; deg + 1]; c[pos] = 1.0; c.extend_from_slice(&[kx, ky, a, b]);
+                out.push(case(&format!("c09_log{}", deg), &c));
+                let mut c: Vec<f64> = (0..=deg).map(|i| 1.0 + 0.5 * i as f64).collect(); c.extend_from_slice(&[kx, ky, a, b]);
+                out.push(case(&format!("c09_log{}", deg), &c));
+            }
+        }
+    }
+    while out.len() < n {
+        let deg = rng.below(9) as usize;
+        let mut c: Vec<f64> = (0..=deg).map(|_| (rng.below(41) as f64 - 20.0) * 0.25).collect();
+        let kx = rng.pos().min(1e6).max(1e-6);
+        c.push(kx); c.push(rng.float()); c.push(rng.pos().min(1e6).max(1e-6)); c.push(rng.pos().min(1e6).max(1e-6));
+        out.push(case(&format!("c09_log{}", deg), &c));
+    }
+}
+
+/// R(x) = sum_{m>=0} x^m/(m+5)! in DD
+fn ref_tail(x: DD) -> DD {
+    if x.to_f64().abs() < 3.0 {
+        let mut term = DD::from(1.0).div(DD::from(120.0));
+        let mut sum = term;
+        for m in 1..60 {
+            term = term.mul(x).div(DD::from(m as f64 + 5.0));
+            sum = sum.add(term);
+        }
+        sum
+    } else {
+        let mut head = DD::from(1.0);
+        let mut t = DD::from(1.0);
+        for j in 1..5 { t = t.mul(x).div(DD::from(j as f64)); head = head.add(t); }
+        let x5 = x.mul(x).mul(x).mul(x).mul(x);
+        DD::exp(x).sub(head).div(x5)
+    }
+}
+fn run_c10(p: &[f64]) -> Option<String> {
+    // params: k, c1..c4, u, v
+    let f = IntOfLogPoly4 { k: p[0], coeffs: [p[1], p[2], p[3], p[4]], u: p[5] };
+    let v = p[6];
+    let got = f.evaluate(v);
+    let x = DD::from(v).ln().neg();
+    let mut xp = DD::from(1.0);
+    let mut want = DD::from(p[0]);
+    let mut mag = p[0].abs();
+    for j in 0..4 {
+        xp = xp.mul(x);
+        let t = DD::from(p[1 + j]).mul(xp).mul(DD::from(v));
+        want = want.add(t);
+        mag += t.to_f64().abs();
+    }
+    xp = xp.mul(x);
+    let t = DD::from(p[5]).mul(DD::from(v)).mul(xp).mul(ref_tail(x));
+    want = want.add(t);
+    mag += t.to_f64().abs();
+    if !mag.is_finite() { return None; }
+    let err = DD::from(got).sub(want).abs().to_f64();
+    if !(err <= 1e-12 * mag + 1e-300) {
+        return Some(format!("evaluate({:e}) = {:e}, k + v*sum c_j x^j + u*v*x^5*R(x) = {:e} (|diff| {:e} > 1e-12 * {:e})", v, got, want.to_f64(), err, mag));
+    }
+    if v == 1.0 && got.to_bits() != p[0].to_bits() && !(got == 0.0 && p[0] == 0.0) { return Some(format!("value at v=1 is {:e}, expected exactly k = {:e}", got, p[0])); }
+    None
+}
+fn gen_c10(rng: &mut Rng, n: usize, out: &mut Vec<Case>) {
+    let coefs = [[0.0, 1.0, 0.0, 0.0, 0.0, 0.0], [0.0, 0.0, 0.0, 0.0, 0.0, 1.0], [3.0, 2.0, 3.0, 4.0, 5.0, 6.0], [1.0, -2.5, 3.5, -4.5, 5.5, -6.5], [0.0, 0.0, 0.0, 0.0, 1.0, 24.0]];
+    let mut vs: Vec<f64> = vec![1.0, 7.0, 0.5, 2.0, 1e-8, 1e8, 1e-300, 1e300, (1.71f64).exp(), (-1.72f64).exp(), (1.72f64).exp(), (-1.71f64).exp()];
+    // floats next to 1 and next to the two switch points, and a sweep over x in [-40, 40]
+    for k in 1..40u64 { vs.push(f64::from_bits(1.0f64.to_bits() + k * k)); vs.push(f64::from_bits(1.0f64.to_bits() - k * k)); }
+    for &sw in [1.71f64, -1.72f64].iter() { let b = sw.exp(); for k in 0..200i64 { vs.push(f64::from_bits((b.to_bits() as i64 + (k - 100) * 37) as u64)); } }
+    for i in 0..=1600 { vs.push((-(i as f64 * 0.05 - 40.0)).exp()); }
+    for i in 1..40 { vs.push(1.0 + (i as f64) * 1e-6); vs.push(1.0 - (i as f64) * 1e-7); vs.push(1.0 + (2.0f64).powi(-i)); }
+    for c in coefs.iter() { for v in vs.iter() { let mut p = c.to_vec(); p.push(*v); out.push(case("c10_quartic", &p)); } }
+    while out.len() < n {
+        let mut p: Vec<f64> = (0..6).map(|_| rng.float()).collect();
+        p.push(match rng.below(3) { 0 => (rng.unit() * 80.0 - 40.0).exp(), 1 => 1.0 + (rng.unit() - 0.5) * (10.0f64).powi(-(rng.below(16) as i32)), _ => rng.pos() });
+        out.push(case("c10_quartic", &p));
+    }
+}
+
+// ------------------------------------------------------------------------------------------- C14
+fn lanes_eq(name: &str, got: &[f64], want: &[f64]) -> Option<String> {
+    if got.len() != want.len() { return Some(format!("{}: {} numbers, expected {}", name, got.len(), want.len())); }
+    for i in 0..got.len() {
+        if got[i].to_bits() != want[i].to_bits() && !(got[i].is_nan() && want[i].is_nan()) {
+            return Some(format!("{}: number {} is {:e}, expected the correctly rounded {:e}", name, i, got[i], want[i]));
+        }
+    }
+    None
+}
+macro_rules! c14_fixed {
+    ($t:ident, $n:expr, $a:expr, $b:expr, $s:expr) => {{
+        let mut ca = [0.0f64; $n]; ca.copy_from_slice(&$a[..$n]);
+        let mut cb = [0.0f64; $n]; cb.copy_from_slice(&$b[..$n]);
+        let s: f64 = $s;
+        let mul: Vec<f64> = ca.iter().map(|c| c * s).collect();
+        let neg: Vec<f64> = ca.iter().map(|c| -c).collect();
+        let add: Vec<f64> = ca.iter().zip(cb.iter()).map(|(x, y)| x + y).collect();
+        let mut r = None;
+        r = r.or(lanes_eq(concat!(stringify!($t), " * s"), &($t(ca) * s).0, &mul));
+        r = r.or(lanes_eq(concat!("-", stringify!($t)), &(-$t(ca)).0, &neg));
+        r = r.or(lanes_eq(concat!(stringify!($t), " + ", stringify!($t)), &($t(ca) + $t(cb)).0, &add));
+        let mut m = $t(ca); m *= s;
+        r = r.or(lanes_eq(concat!(stringify!($t), " *= s"), &m.0, &mul));
+        let mut t = $t(ca); t.translate(s);
+        let mut tr = ca.to_vec(); tr[0] = ca[0] + s;
+        r = r.or(lanes_eq(concat!(stringify!($t), "::translate"), &t.0, &tr));
+        // Log wrapper
+        r = r.or(lanes_eq(concat!("Log<", stringify!($t), "> * s"), &((Log($t(ca)) * s).0).0, &mul));
+        let mut lm = Log($t(ca)); lm *= s;
+        r = r.or(lanes_eq(concat!("Log<", stringify!($t), "> *= s"), &(lm.0).0, &mul));
+        let mut lt = Log($t(ca)); lt.translate(s);
+        r = r.or(lanes_eq(concat!("Log<", stringify!($t), ">::translate"), &(lt.0).0, &tr));
+        // IntOfLog wrapper (k = cb[0])
+        let k = cb[0];
+        let f = IntOfLog { k, poly: $t(ca) };
+        let g = IntOfLog { k: ca[0], poly: $t(cb) };
+        let fm = f * s;
+        r = r.or(lanes_eq("IntOfLog * s (k)", &[fm.k], &[s * k])).or(lanes_eq("IntOfLog * s (poly)", &fm.poly.0, &mul));
+        let mut fa = f; fa *= s;
+        r = r.or(lanes_eq("IntOfLog *= s (k)", &[fa.k], &[k * s])).or(lanes_eq("IntOfLog *= s (poly)", &fa.poly.0, &mul));
+        let fneg = -f;
+        r = r.or(lanes_eq("-IntOfLog (k)", &[fneg.k], &[-k])).or(lanes_eq("-IntOfLog (poly)", &fneg.poly.0, &neg));
+        let fadd = f + g;
+        r = r.or(lanes_eq("IntOfLog + IntOfLog (k)", &[fadd.k], &[k + ca[0]])).or(lanes_eq("IntOfLog + IntOfLog (poly)", &fadd.poly.0, &add));
+        let mut ft = f; ft.translate(s);
+        r = r.or(lanes_eq("IntOfLog::translate (k)", &[ft.k], &[k + s])).or(lanes_eq("IntOfLog::translate (poly)", &ft.poly.0, &ca));
+        r
+    }};
+}
+fn run_c14_poly(deg: usize, p: &[f64]) -> Option<String> {
+    let n = deg + 1;
+    let (a, rest) = p.split_at(n);
+    let (b, rest) = rest.split_at(n);
+    let s = rest[0];
+    match deg {
+        0 => {
+            let (ca, cb) = (a[0], b[0]);
+            let mut r = None;
+            r = r.or(lanes_eq("Poly0 * s", &[(Poly0(ca) * s).0], &[ca * s]));
+            r = r.or(lanes_eq("-Poly0", &[(-Poly0(ca)).0], &[-ca]));
+            r = r.or(lanes_eq("Poly0 + Poly0", &[(Poly0(ca) + Poly0(cb)).0], &[ca + cb]));
+            let mut m = Poly0(ca); m *= s;
+            r = r.or(lanes_eq("Poly0 *= s", &[m.0], &[ca * s]));
+            let mut t = Poly0(ca); t.translate(s);
+            r = r.or(lanes_eq("Poly0::translate", &[t.0], &[ca + s]));
+            let mut lm = Log(Poly0(ca)); lm *= s;
+            r = r.or(lanes_eq("Log<Poly0> *= s", &[(lm.0).0], &[ca * s]));
+            r = r.or(lanes_eq("Log<Poly0> * s", &[((Log(Poly0(ca)) * s).0).0], &[ca * s]));
+            let f = IntOfLog { k: cb, poly: Poly0(ca) };
+            let fm = f * s;
+            r = r.or(lanes_eq("IntOfLog<Poly0> * s", &[fm.k, fm.poly.0], &[s * cb, ca * s]));
+            let mut fa = f; fa *= s;
+            r = r.or(lanes_eq("IntOfLog<Poly0> *= s", &[fa.k, fa.poly.0], &[cb * s, ca * s]));
+            let mut ft = f; ft.translate(s);
+            r = r.or(lanes_eq("IntOfLog<Poly0>::translate", &[ft.k, ft.poly.0], &[cb + s, ca]));
+            r
+        }
+        1 => c14_fixed!(Poly1, 2, a, b, s), 2 => c14_fixed!(Poly2, 3, a, b, s), 3 => c14_fixed!(Poly3, 4, a, b, s),
+        4 => c14_fixed!(Poly4, 5, a, b, s), 5 => c14_fixed!(Poly5, 6, a, b, s), 6 => c14_fixed!(Poly6, 7, a, b, s),
+        7 => c14_fixed!(Poly7, 8, a, b, s), 8 => c14_fixed!(Poly8, 9, a, b, s),
+        _ => unreachable!(),
+    }
+}
+fn q4(p: &[f64]) -> IntOfLogPoly4 { IntOfLogPoly4 { k: p[0], coeffs: [p[1], p[2], p[3], p[4]], u: p[5] } }
+fn q4v(f: &IntOfLogPoly4) -> Vec<f64> { vec![f.k, f.coeffs[0], f.coeffs[1], f.coeffs[2], f.coeffs[3], f.u] }
+fn run_c14_quartic(p: &[f64]) -> Option<String> {
+    let (a, b, s) = (&p[0..6], &p[6..12], p[12]);
+    let (fa, fb) = (q4(a), q4(b));
+    let add: Vec<f64> = a.iter().zip(b.iter()).map(|(x, y)| x + y).collect();
+    let sub: Vec<f64> = a.iter().zip(b.iter()).map(|(x, y)| x - y).collect();
+    let mul: Vec<f64> = a.iter().map(|x| x * s).collect();
+    let neg: Vec<f64> = a.iter().map(|x| -x).collect();
+    let mut r = None;
+    r = r.or(lanes_eq("IntOfLogPoly4 + IntOfLogPoly4", &q4v(&(fa + fb)), &add));
+    r = r.or(lanes_eq("&IntOfLogPoly4 + &IntOfLogPoly4", &q4v(&(&fa + &fb)), &add));
+    r = r.or(lanes_eq("IntOfLogPoly4 - IntOfLogPoly4", &q4v(&(fa - fb)), &sub));
+    r = r.or(lanes_eq("&IntOfLogPoly4 - &IntOfLogPoly4", &q4v(&(&fa - &fb)), &sub));
+    r = r.or(lanes_eq("IntOfLogPoly4 * s", &q4v(&(fa * s)), &mul));
+    r = r.or(lanes_eq("-IntOfLogPoly4", &q4v(&(-fa)), &neg));
+    let mut t = fa; t.translate(s);
+    let mut tr = a.to_vec(); tr[0] = a[0] + s;
+    r = r.or(lanes_eq("IntOfLogPoly4::translate", &q4v(&t), &tr));
+    r
+}
+fn run_c14_polyn(p: &[f64]) -> Option<String> {
+    let (c, v) = p.split_at(p.len() - 1);
+    let mut q = PolyN(c.to_vec());
+    q.translate(v[0]);
+    let mut want = c.to_vec();
+    if want.is_empty() { want.push(v[0]); } else { want[0] = c[0] + v[0]; }
+    lanes_eq("PolyN::translate", &q.0, &want)
+}
+fn gen_c14(rng: &mut Rng, n: usize, out: &mut Vec<Case>) {
+    let scalars = [0.0, -0.0, 1.0, -1.0, 2.0, 3.0, 0.1, 1e300, 5e-324, -7.25, 1.0 / 3.0];
+    for deg in 0..=8usize {
+        for &s in scalars.iter() {
+            let a: Vec<f64> = (0..=deg).map(|i| 0.7 + i as f64 * 1.3).collect();
+            let b: Vec<f64> = (0..=deg).map(|i| 100.1 - i as f64 * 7.7).collect();
+            let mut v = a.clone(); v.extend_from_slice(&b); v.push(s);
+            out.push(case(&format!("c14_poly{}", deg), &v));
+        }
+    }
+    for &s in scalars.iter() {
+        let a = [3.0, 2.0, 3.3, 4.0, 5.5, 6.0]; let b = [0.1, 0.2, 0.3, 0.4, 0.5, 0.6];
+        let mut v = a.to_vec(); v.extend_from_slice(&b); v.push(s);
+        out.push(case("c14_quartic", &v));
+    }
+    for len in 0..5usize { let mut v: Vec<f64> = (0..len).map(|i| i as f64 + 0.5).collect(); v.push(2.25); out.push(case("c14_polyn", &v)); }
+    while out.len() < n {
+        match rng.below(8) {
+            0 => { let mut v: Vec<f64> = (0..12).map(|_| rng.wide()).collect(); v.push(rng.wide()); out.push(case("c14_quartic", &v)); }
+            1 => { let len = rng.below(6) as usize; let mut v: Vec<f64> = (0..len).map(|_| rng.float()).collect(); v.push(rng.float()); out.push(case("c14_polyn", &v)); }
+            _ => {
+                let deg = rng.below(9) as usize;
+                let mut v: Vec<f64> = (0..2 * (deg + 1)).map(|_| match rng.below(3) { 0 => rng.wide(), 1 => rng.odd(), _ => rng.float() }).collect();
+                v.push(match rng.below(3) { 0 => rng.odd(), 1 => rng.wide(), _ => rng.float() });
+                out.push(case(&format!("c14_poly{}", deg), &v));
+            }
         }
     }
 }
